@@ -13,7 +13,7 @@ SPEC = {
         'byte position; self._tell = saved the code-point position). T15-qualifier: every value added to / stored in '
         'SpooledStringIO._tell counts code points (len of str values), never len of encoded bytes. T9 rollover (both classes): '
         'old position read, content copied, tmp.seek(pos), all before self._buffer = tmp; write compares with _max_size before '
-        'writing. T18 MultiFileReader.seek resets the current-file index and rewinds every member file (loop over the whole '
+        'writing; a descriptor-level size query (os.fstat) is preceded on every path by a flushing seek/flush. T18 MultiFileReader.seek resets the current-file index and rewinds every member file (loop over the whole '
         '_fileobjs). Both concrete spooled classes define every abstract method/property of SpooledIOBase. Not decided: '
         'equality with io.BytesIO/StringIO for every history, code-point arithmetic in seek, EncodedFile read-ahead.'),
     'decided': ['observer restore of every disturbed position component', '_tell counts code points', 'rollover ordering',
@@ -171,6 +171,28 @@ def run(ctx):
             if bw:
                 tst = [o for o in p.ops if o.kind == 'test' and '_max_size' in txt(o.node) and o.seq < bw[0].seq]
                 ctx.ob('T9.thresh', '%s.write' % cls, 'the size threshold is consulted before writing to the buffer', bool(tst), loc=wr.loc)
+    # a size taken from the file descriptor (os.fstat / os.stat on fileno) sees only flushed data: on every path it is
+    # preceded by a call that flushes the buffered temporary file (seek or flush on self / self.buffer)
+    n_stat = 0
+    for cls in ('ioutils.SpooledBytesIO', 'ioutils.SpooledStringIO'):
+        ci = prog.cls(cls)
+        for nm, mem in ci.members.items():
+            if not isinstance(mem, FuncInfo) or not any(isinstance(x, ast.Call) and call_name(x) in ('os.fstat', 'os.stat')
+                                                        for x in ast.walk(mem.node)):
+                continue
+            w, paths = paths_of(prog, mem, recv=ci)
+            for p in paths:
+                calls = [o for o in p.ops if o.kind == 'call']
+                for o in calls:
+                    if call_name(o.val) in ('os.fstat', 'os.stat'):
+                        n_stat += 1
+                        sync = [c for c in calls if c.seq < o.seq and isinstance(c.val.func, ast.Attribute) and
+                                c.val.func.attr in ('seek', 'flush') and txt(c.val.func.value) in ('self', 'self.buffer', 'self._buffer')]
+                        ctx.ob('T9.sync', '%s.%s' % (cls, nm), 'the size read from the file descriptor is taken after the buffered '
+                               'temporary file was flushed (a seek/flush on the buffer precedes os.fstat on every path)', bool(sync),
+                               loc=loc(mem, o.node), path=p.describe() if not sync else None)
+    if n_stat == 0:
+        ctx.info('T9.sync: no descriptor-level size query in the spooled classes (nothing to check)')
     # _tell unit
     sci = prog.cls('ioutils.SpooledStringIO')
     for nm, mem in sci.members.items():
